@@ -146,6 +146,9 @@ def lock_variants(kind):
         "negative": b"next_reference_id: -4\n",
         "noninteger": b"next_reference_id: abc\n",
         "bare": b"next_reference_id: 42\n",
+        # not YAML a lock can be, although a line of it looks like one: unresolved merge, duplicated key
+        "conflict": b"<<<<<<< HEAD\nnext_reference_id: 3\n=======\nnext_reference_id: 5\n>>>>>>> branch\n",
+        "dupkey": b"next_reference_id: 3\nnext_reference_id: 5\n",
         "max": lock_bytes(U32),
         "maxm1": lock_bytes(U32 - 1),
     }[kind]
